@@ -369,7 +369,12 @@ impl World {
             let name = entry.file_name().as_bytes().to_vec();
             let ft = entry.file_type().unwrap();
             let desc = if ft.is_file() {
-                format!("f {}", entry.metadata().unwrap().len())
+                let len = entry.metadata().unwrap().len();
+                if len <= 4096 {
+                    format!("f {} {:08x}", len, fnv32(&std::fs::read(entry.path()).unwrap()))
+                } else {
+                    format!("f {}", len)
+                }
             } else if ft.is_dir() {
                 "d 0".to_string()
             } else {
